@@ -125,6 +125,18 @@ def rule_release(report, prog):
         if isinstance(r, FuncInfo) and any('snl' in norm(s) and (isinstance(s, ast.Delete) or '.pop(' in norm(s))
                                           for s in walk_no_nested(r.node) if isinstance(s, ast.stmt)):
             purged = True
+    # ... and only then: while another socket of the service access point is open (a listening socket whose accepted connection was
+    # closed) the name must stay resolvable
+    cfg = cfg_of(f)
+    last = [(t, 'true') for e, t in cfg.test_nodes.items() if norm(e) in ('len(self.sock_list) == 0', 'not self.sock_list')] + \
+           [(t, 'false') for e, t in cfg.test_nodes.items() if norm(e) in ('len(self.sock_list) > 0', 'self.sock_list', 'len(self.sock_list) != 0')]
+    dels = [n for n in cfg.nodes if n.kind == 'stmt' and n.ast is not None and isinstance(n.ast, (ast.Delete, ast.Expr, ast.Assign)) and 'snl' in norm(n.ast) and
+            (isinstance(n.ast, ast.Delete) or '.pop(' in norm(n.ast))]
+    early = [n for n in dels if not last or n in cfg.reachable(cfg.entry, avoid_edges=last)]
+    report.check(not early, 'C17-R3', key(f.qname, 'service name released only when the last socket of the access point is gone'),
+                 f.loc(early[0].ast) if early else f.loc(),
+                 'remove_socket drops the service name although other sockets of the service access point may still be open: the listening '
+                 'service becomes unresolvable and its name can be bound a second time')
     report.check(purged, 'C17-R3', key(f.qname, 'service name released together with the address'), f.loc(),
                  'the service name registered by bind-by-name is never removed from llc.snl: after the last socket is closed the '
                  'name still resolves to the freed address and binding the name again fails with EADDRINUSE')
@@ -242,7 +254,29 @@ def rule_once(report, prog):
                  g.loc(), 'insert_socket no longer binds the socket to the SAP address')
 
 
+
+def rule_transaction_ids(report, prog):
+    """R5 (service discovery): a transaction id identifies one outstanding request: it leaves the pool when the request is created and
+    returns only when the matching response was received -- returning it earlier lets two outstanding requests share an id and the
+    first answer is stored under the wrong name."""
+    sd = prog.cls('nfc.llcp.llc.ServiceDiscovery')
+    n = 0
+    for m in sd.methods.values():
+        for c in walk_no_nested(m.node):
+            if isinstance(c, ast.Call) and isinstance(c.func, ast.Attribute) and norm(c.func.value) == 'self.tids' and c.func.attr in ('append', 'extend', 'insert'):
+                n += 1
+                loops = [a for a in ancestors(c) if isinstance(a, ast.For) and 'sdres' in norm(a.iter)]
+                report.check(m.name == 'enqueue' and bool(loops), 'C17-R5', key(m.qname, 'transaction id returns to the pool only for a received response', c), m.loc(c),
+                             '%s gives a transaction id back (`%s`) outside the handling of received SDRES entries: the id can be drawn again while '
+                             'its request is still outstanding' % (m.qname, norm(c)))
+    report.floor('C17-R5 tids', n, 1)
+    r = prog.lookup(sd, 'resolve')
+    okk = isinstance(r, FuncInfo) and bool(find(r.node, 'self.tids.remove(tid)')) and bool(find(r.node, 'tid = random.choice(self.tids)'))
+    report.check(okk, 'C17-R5', key(sd.qname + '.resolve', 'a request takes its transaction id out of the pool'), r.loc() if isinstance(r, FuncInfo) else sd.qname,
+                 'resolve() no longer removes the chosen transaction id from the pool')
+
 def run(report, prog, tier):
+    rule_transaction_ids(report, prog)
     res = Resolver(prog)
     rule_no_double(report, prog)
     rule_ranges(report, prog)
